@@ -153,6 +153,81 @@ func realProcesses(o *hc.Out, g *hc.Gen, bin, scratch string, rounds int) {
 	}
 }
 
+// pausedRMW: a real csvq process is held (VERIF_PAUSE_AT, build tag verif) at the first step of taking the
+// exclusive lock of its statement — whatever it has read before that point it read without the lock — a second
+// process then commits a change to the same table, and the first one is let go.  Every single-statement
+// read-modify-write form must see the second process's commit: the end state is that of running the two one
+// after the other.
+func pausedRMW(o *hc.Out, bin, scratch string) {
+	type form struct{ name, table, init, p1, p2, want string }
+	forms := []form{
+		{"update_increment", "cnt.csv", "n\n0\n", "UPDATE cnt SET n = n + 1", "UPDATE cnt SET n = n + 10", "n\n11\n"},
+		{"update_from_subquery", "cnt.csv", "n\n0\n", "UPDATE cnt SET n = (SELECT MAX(n) FROM cnt) + 1", "UPDATE cnt SET n = n + 10", "n\n11\n"},
+		{"select_then_update", "cnt.csv", "n\n0\n", "SELECT n FROM cnt; UPDATE cnt SET n = n + 1", "UPDATE cnt SET n = n + 10", "n\n11\n"},
+		{"insert_select_max", "ids.csv", "id\n0\n", "INSERT INTO ids SELECT MAX(id) + 1 FROM ids", "INSERT INTO ids SELECT MAX(id) + 1 FROM ids", "id\n0\n1\n2\n"},
+		{"insert_values_subquery", "ids.csv", "id\n0\n", "INSERT INTO ids VALUES ((SELECT MAX(id) + 1 FROM ids))", "INSERT INTO ids VALUES (1)", "id\n0\n1\n2\n"},
+		{"insert_select_count", "ids.csv", "id\n0\n", "INSERT INTO ids SELECT COUNT(*) FROM ids", "INSERT INTO ids VALUES (1)", "id\n0\n1\n2\n"},
+		{"delete_below_max", "ids.csv", "id\n0\n1\n", "DELETE FROM ids WHERE id < (SELECT MAX(id) FROM ids)", "INSERT INTO ids VALUES (5)", "id\n5\n"},
+		{"replace_from_self", "kv.csv", "k,v\n1,0\n", "REPLACE INTO kv (k, v) USING (k) SELECT k, v + 1 FROM kv", "UPDATE kv SET v = v + 10", "k,v\n1,11\n"},
+		{"update_join_self", "kv.csv", "k,v\n1,0\n", "UPDATE kv SET kv.v = s.v + 1 FROM kv JOIN (SELECT k, v FROM kv) s ON kv.k = s.k", "UPDATE kv SET v = v + 10", "k,v\n1,11\n"},
+		{"create_as_select_then_insert", "ids.csv", "id\n0\n", "INSERT INTO ids SELECT id + 100 FROM ids", "INSERT INTO ids VALUES (1)", "id\n0\n1\n100\n101\n"},
+	}
+	for i, f := range forms {
+		d := filepath.Join(scratch, fmt.Sprintf("c09q-%d", i))
+		_ = os.RemoveAll(d)
+		_ = os.MkdirAll(d, 0o755)
+		path := filepath.Join(d, f.table)
+		_ = os.WriteFile(path, []byte(f.init), 0o644)
+		gate := filepath.Join(d, "gate")
+		run := func(stmt string, env ...string) (string, error) {
+			cmd := exec.Command(bin, "--repository", d, "--quiet", "--wait-timeout", "10", stmt+"; COMMIT;")
+			cmd.Dir = d
+			cmd.Env = append(append(os.Environ(), "HOME="+d), env...)
+			out, err := cmd.CombinedOutput()
+			return string(out), err
+		}
+		type res struct {
+			out string
+			err error
+		}
+		done := make(chan res, 1)
+		go func() {
+			out, err := run(f.p1, "VERIF_PAUSE_AT=lock.check#1:"+gate)
+			done <- res{out, err}
+		}()
+		reached := false
+		for k := 0; k < 2000; k++ {
+			if _, err := os.Stat(gate + ".reached"); err == nil {
+				reached = true
+				break
+			}
+			time.Sleep(5 * time.Millisecond)
+		}
+		out2, err2 := run(f.p2)
+		_ = os.WriteFile(gate, nil, 0o644)
+		r1 := <-done
+		_ = os.Remove(gate)
+		_ = os.Remove(gate + ".reached")
+		b, _ := os.ReadFile(path)
+		rep := map[string]interface{}{"form": f.name, "first": f.p1, "second": f.p2, "file": string(b), "want": f.want, "first_paused_before_its_lock": reached,
+			"first_output": r1.out, "second_output": out2}
+		switch {
+		case r1.err != nil || err2 != nil:
+			o.Law("paused_rmw_error", rep)
+		case string(b) != f.want:
+			o.Law("lost_update_single_statement", rep)
+		}
+		if st := fsState(d, f.table); st != "L0R0" {
+			rep["state"] = st
+			o.Law("control_files_left", rep)
+		}
+		o.Eval()
+		o.NonTrivial("pausedrmw:" + f.name)
+		o.Count(fmt.Sprintf("paused_rmw_reached:%v", reached))
+		_ = os.RemoveAll(d)
+	}
+}
+
 // lockTimeouts: while one handler holds the table for update (or for read), a second one that cannot get
 // access within its wait timeout must fail with the lock-timeout error and change nothing.
 func lockTimeouts(o *hc.Out, scratch string, rounds int) {
@@ -320,6 +395,7 @@ func run(seed int64, n int, dir string, _ []string) {
 	}
 	if bin := os.Getenv("VERIF_CSVQ"); bin != "" {
 		realProcesses(o, g, bin, scratch, 2+n/400)
+		pausedRMW(o, bin, scratch)
 		accessForms(o, bin, scratch)
 	}
 	lockTimeouts(o, scratch, 2+n/100)
